@@ -3,6 +3,7 @@ package rules
 import (
 	"fmt"
 	"go/token"
+	"strings"
 	"go/types"
 
 	"golang.org/x/tools/go/ssa"
@@ -297,7 +298,7 @@ type poolPoint struct {
 func init() {
 	core.Register(&core.Rule{
 		Name: "R-POOL",
-		Doc: "Typestate of per-search state: a value obtained from sync.Pool.Get / atomic.Pointer.Swap(nil) (directly or through a getter wrapper such as getSearchState) is (a) handed back (Pool.Put, CompareAndSwap(nil,x), or a putter wrapper; directly or by defer) on every path to return unless the function itself returns it, (b) never used after it was handed back, (c) never handed back twice. (b),(c) are necessary for C06 (the next Get in another goroutine receives the same object); (a) is necessary for C20 (a leaked state is re-allocated by Pool.New on every call, so steady-state calls allocate) and C13.",
+		Doc: "Typestate of per-search state: a value obtained from sync.Pool.Get / atomic.Pointer.Swap(nil) (directly or through a getter wrapper such as getSearchState) is (a) handed back (Pool.Put, CompareAndSwap(nil,x), or a putter wrapper; directly or by defer) on every path to return unless the function itself returns it, (b) never used after it was handed back, (c) never handed back twice, (d) handed back only by the function that obtained it: a put of a received value (a parameter, an element of a variadic parameter, on any incoming edge of a phi) is a violation outside the putter wrappers. (b),(c),(d) are necessary for C06 (the next Get in another goroutine receives the same object); (a) is necessary for C20 (a leaked state is re-allocated by Pool.New on every call, so steady-state calls allocate) and C13.",
 		Min: 50, NeedSSA: true,
 		ThoroughArchs: []string{"arm64"},
 		Run: func(p *core.Prog) *core.RuleResult {
@@ -334,6 +335,78 @@ func init() {
 						o.Path = viol
 					}
 					res.Obligations = append(res.Obligations, o)
+				}
+			}
+			// (d) only the owner hands back: outside the putter wrappers, a handed-back value comes from a get of
+			// the same function on every path; a value the function received (a parameter, an element of a
+			// variadic parameter) still belongs to the caller, which goes on using it and hands it back itself
+			for _, fn := range p.SrcFuncs() {
+				if pf.putters[fn] != nil || strings.HasSuffix(p.File(fn.Pos()), "_test.go") {
+					continue
+				}
+				for _, b := range fn.Blocks {
+					for _, in := range b.Instrs {
+						ci, ok := in.(ssa.CallInstruction)
+						if !ok {
+							continue
+						}
+						cc := ci.Common()
+						var handed []ssa.Value
+						if v, _ := primitivePut(cc); v != nil {
+							handed = append(handed, v)
+						} else if f := cc.StaticCallee(); f != nil && pf.putters[f] != nil {
+							for i := range pf.putters[f] {
+								if i < len(cc.Args) {
+									handed = append(handed, cc.Args[i])
+								}
+							}
+						}
+						for _, hv := range handed {
+							borrowed := ""
+							seen := map[ssa.Value]bool{}
+							var walk func(v ssa.Value, d int)
+							walk = func(v ssa.Value, d int) {
+								if d > 8 || seen[v] || borrowed != "" {
+									return
+								}
+								seen[v] = true
+								switch x := v.(type) {
+								case *ssa.Phi:
+									for _, e := range x.Edges {
+										walk(e, d+1)
+									}
+								case *ssa.Parameter:
+									borrowed = "parameter " + x.Name()
+								case *ssa.UnOp:
+									if x.Op == token.MUL {
+										if ia, ok := x.X.(*ssa.IndexAddr); ok {
+											if prm, ok := ia.X.(*ssa.Parameter); ok {
+												borrowed = "an element of parameter " + prm.Name()
+											}
+										}
+										if a, ok := x.X.(*ssa.Alloc); ok && a.Referrers() != nil {
+											for _, r := range *a.Referrers() {
+												if st, ok := r.(*ssa.Store); ok && st.Addr == ssa.Value(a) {
+													walk(st.Val, d+1)
+												}
+											}
+										}
+									}
+								case *ssa.ChangeType:
+									walk(x.X, d+1)
+								case *ssa.MakeInterface:
+									walk(x.X, d+1)
+								}
+							}
+							walk(hv, 0)
+							if borrowed == "" {
+								continue
+							}
+							o := core.Obligation{Key: kc.Key("R-POOL", core.FuncName(fn), "hand-back of a borrowed state"), Pos: p.Pos(in.Pos()), Nontrivial: true, Status: core.Violated}
+							o.Detail = "the value handed back may be " + borrowed + ": the caller that owns it keeps using it and hands it back again, so two goroutines can receive the same state"
+							res.Obligations = append(res.Obligations, o)
+						}
+					}
 				}
 			}
 			for _, fn := range p.SrcFuncs() {
